@@ -675,7 +675,9 @@ func runRich(o *hx.Opts, rnd *hx.Rand, res *hx.Result) {
 	for i := 0; i < n; i++ {
 		r := rnd.Fork(fmt.Sprintf("rich%d", i))
 		var sc *Scenario
-		if i%3 == 2 {
+		if i%4 == 3 {
+			sc = genInputDriven(r, i, int64(o.Seed)*100003+int64(i))
+		} else if i%3 == 2 {
 			sc = genFocused(r, i, int64(o.Seed)*100003+int64(i))
 		} else if i%3 == 1 {
 			sc = genProbe(r, i, int64(o.Seed)*100003+int64(i))
